@@ -27,6 +27,16 @@ import Tickit.Model.EvLoopMulti
   watchers of every instance, each in its own instance's next iteration.  The specification also
   tracks which instance the process's signal observer is (the first one built while there is none,
   until it is destroyed) — only to say so in its messages.
+
+  The self-pipe configuration (`fb`: event hooks without signal members, one instance): a watched signal is not
+  kept blocked; it is *delivered to the process* by the `raise` itself (before an iteration, inside the wait, while
+  callbacks run).  At that moment it is owed to every callback then watching it (`owedK`).  What is owed when a
+  wait begins must have been invoked when that iteration ends — "within the next loop iterations without needing a
+  further signal" read as: the iteration whose wait begins after the delivery (the wake-up is already in the
+  pipe).  A signal callback may run when it is owed the signal, or — once per iteration — when the signal was
+  delivered to the process since the wait before last began (a watcher registered after the delivery may still see
+  it); anything else is spurious.  What the wait returns is the kernel's business (the pipe is the library's own
+  descriptor): it is only held to lie between the number of ready descriptors of live io watches and one more.
 -/
 namespace Tickit.EvLoop.Spec
 open Tickit.EvLoop
@@ -60,6 +70,7 @@ structure TickInfo where
   sigInvoked : List Int := []
   lastTimer : Option (Int × Nat) := none      -- slot, sequence counter when it fired
   lastLater : Option (Int × Nat) := none
+  looseOld : List Int := []                   -- self-pipe configuration: signals delivered to the process before this wait began
 deriving Repr, Inhabited
 
 structure SSt where
@@ -83,6 +94,11 @@ structure SSt where
   started : Bool := false
   prop : Nat := 0                -- 17 / 18: evaluate only that property's clauses; 0: all
   tk : TickInfo := {}
+  /-- the self-pipe configuration (`new … fb`: event hooks without signal members): watched signals are not
+      blocked; the handler records them at once and the loop owes them to the callbacks that watched them -/
+  fb : Bool := false
+  owedK : List (Int × Int) := []   -- fb: (signal watch, signal) — delivered to the process while that watch watched it, watch not invoked since
+  loose : List Int := []           -- fb: signals delivered to the process since the last wait began
 deriving Repr, Inhabited
 
 def init : SSt := {}
@@ -176,7 +192,8 @@ def register (s : SSt) (w : SW) : SSt :=
 
 /-- The signal lost its last watcher: the loop restores the default action and unblocks it. -/
 def afterUnwatch (s : SSt) (sig : Int) : SSt :=
-  if !held s sig && s.raised.contains sig then
+  if s.fb then s        -- nothing is pending in the kernel; the handler is removed, nobody is killed
+  else if !held s sig && s.raised.contains sig then
     let s := { s with raised := s.raised.filter (· ≠ sig) }
     if sigTerminates sig then { s with misuse := true } else s
   else s
@@ -184,6 +201,10 @@ def afterUnwatch (s : SSt) (sig : Int) : SSt :=
 def raiseS (s : SSt) (sig : Int) : SSt :=
   if !held s sig then
     if sigTerminates sig then { s with misuse := true } else s
+  else if s.fb then
+    -- delivered now: owed to every callback watching it now
+    { s with owedK := (watchersOf s sig).foldl (fun acc w => if acc.contains (w.k, sig) then acc else acc ++ [(w.k, sig)]) s.owedK,
+             loose := if s.loose.contains sig then s.loose else sig :: s.loose }
   else { s with raised := if s.raised.contains sig then s.raised else sig :: s.raised }
 
 /-- Result of applying one action abstractly: new state and the notifications that must follow
@@ -340,6 +361,17 @@ def fireClauses (s : SSt) (w : SW) (flags : Nat) (info : Info) (inTick : Bool) :
       else ""
   | .signal =>
     if flags ≠ EV_FIRE then s!"signal watch {k} invoked with flags {flags}, not FIRE"
+    else if s.fb then
+      let orderBad := s.tk.sigInvoked.any fun p =>
+        match find s p with
+        | some pw => pw.signum = w.signum && idxOf s.sigQ p > idxOf s.sigQ k
+        | none => false
+      if s.owedK.contains (k, w.signum) then
+        (if orderBad then s!"signal watch {k} invoked after a watcher of the same signal registered behind it" else "")
+      else if s.tk.sigInvoked.contains k then s!"signal watch {k} invoked twice for one delivery of signal {w.signum}"
+      else if !(s.loose.contains w.signum || s.tk.looseOld.contains w.signum) then
+        s!"signal watch {k} invoked although signal {w.signum} was not delivered to the process (spurious)"
+      else if orderBad then s!"signal watch {k} invoked after a watcher of the same signal registered behind it" else ""
     else if !s.tk.delivered.contains w.signum then
       s!"signal watch {k} invoked although signal {w.signum} was not delivered in this iteration (spurious)"
     else if s.tk.sigInvoked.contains k then s!"signal watch {k} invoked twice for one delivery"
@@ -371,7 +403,8 @@ def fireMark (s : SSt) (w : SW) : SSt :=
     let s := if w.state = .live then upd s k fun w => { w with state := .fired } else s
     { s with tk := { s.tk with lastLater := some (k, s.seq) } }
   | .io => { s with tk := { s.tk with ioInvoked := k :: s.tk.ioInvoked } }
-  | .signal => { s with tk := { s.tk with sigInvoked := k :: s.tk.sigInvoked } }
+  | .signal => { s with tk := { s.tk with sigInvoked := k :: s.tk.sigInvoked },
+                        owedK := s.owedK.filter (· ≠ (k, w.signum)) }
   | .process => if w.state = .live then upd s k fun w => { w with state := .fired } else s
   | .none => s
 
@@ -409,8 +442,70 @@ def walk (s : SSt) (inTick : Bool) : (fuel : Nat) → List PEv → Except String
 def multisetEq (a b : List (Int × Nat)) : Bool :=
   a.length == b.length && a.all (fun x => a.count x == b.count x)
 
+/-- The harness numbers the library's self-pipes 90, 91, … (below its virtual descriptors). -/
+def isPipeFd (fd : Int) : Bool := 90 ≤ fd && fd < FD0
+
+/-- A loop iteration in the self-pipe configuration. -/
+def checkTickFb (s : SSt) (hang : Bool) (evs : List PEv) (cut : Bool) : Except String SSt :=
+  let pre := evs.takeWhile fun e => match e with | .poll .. => false | _ => true
+  let rest := evs.dropWhile fun e => match e with | .poll .. => false | _ => true
+  if pre.any (fun e => match e with | .cb .. => true | _ => false) then .error "a callback ran before the wait" else
+  match rest with
+  | .poll timeout slots ret :: cbs =>
+    let ios := liveOf s .io
+    let wantSlots := ios.map fun w => (w.fd, eventsOfCond w.cond)
+    -- the instance's own descriptors: the terminal's (none) and the self-pipe
+    let haveSlots := slots.filter fun x => x.1 ≠ -1 && !(isPipeFd x.1 && !ios.any (·.fd = x.1))
+    if s.c18 && !multisetEq wantSlots haveSlots then
+      .error s!"the loop polls {haveSlots}, the live io watches are {wantSlots}"
+    else
+    -- what was delivered to the process before this wait began is due in this iteration
+    let due := s.owedK
+    let looseOld := s.loose
+    let s := s.inpoll.foldl raiseS { s with inpoll := [], loose := [] }
+    if s.misuse then .ok s else
+    let count := (ios.filter fun w => reventsOf s w ≠ 0).length
+    let retOk := match ret with
+      | some n => n = count || n = count + 1
+      | none => count = 0
+    if !retOk then .error s!"harness: the wait returned {ret} with {count} descriptors of io watches ready" else
+    let s := if ret = some 0 then
+        match timeout with
+        | some ms => { s with clockUs := s.clockUs + ms * 1000 }
+        | none => s
+      else s
+    if !hang && timeout ≠ some 0 then .error s!"a non-blocking iteration waited with timeout {timeout}" else
+    let now := TV.ofUs s.clockUs
+    let s := { s with tk := { now := now, pollSeq := s.seq, ret := ret, looseOld := looseOld } }
+    let dueTimers := (liveOf s .timer).filter fun w => !w.due.gt now
+    let batch := liveOf s .later
+    let ioWant := if count > 0 then ios.filter (fun w => reventsOf s w ≠ 0) else []
+    match walk s true (cbs.length + 1) cbs with
+    | .error e => .error e
+    | .ok s =>
+      if s.misuse || cut then .ok s else
+      let stillLive (w : SW) : Bool := match find s w.k with | some w' => w'.state = .live | none => false
+      let liveK (k : Int) : Bool := match find s k with | some w' => w'.state = .live | none => false
+      match (if s.c17 then dueTimers else []).find? stillLive with
+      | some w => .error s!"timer {w.k} was due (deadline {w.due.sec}.{w.due.usec} <= now {now.sec}.{now.usec}) and did not run in this iteration"
+      | none =>
+      match (if s.c17 then batch else []).find? stillLive with
+      | some w => .error s!"deferred callback {w.k} was pending and did not run in this iteration"
+      | none =>
+      match (if s.c18 then ioWant else []).find? (fun w => stillLive w && !s.tk.ioInvoked.contains w.k) with
+      | some w => .error s!"io watch {w.k}: descriptor {w.fd} was reported ready and the watch was not invoked"
+      | none =>
+      match (if s.c18 then due else []).find? (fun x => liveK x.1 && !s.tk.sigInvoked.contains x.1) with
+      | some (k, sg) =>
+        .error s!"signal {sg} was delivered to the process before the wait of this iteration began, while signal watch {k} was watching it, and the watch was not invoked in this iteration (self-pipe configuration: the wake-up has been consumed, the signal is lost or waits for a further one)"
+      | none => .ok s
+  | _ =>
+    if cut then .ok (s.inpoll.foldl raiseS { s with inpoll := [] })
+    else .error "no wait in this iteration"
+
 /-- A loop iteration. -/
 def checkTick (s : SSt) (hang : Bool) (evs : List PEv) (cut : Bool) : Except String SSt :=
+  if s.fb then checkTickFb s hang evs cut else
   -- the wait
   let pre := evs.takeWhile fun e => match e with | .poll .. => false | _ => true
   let rest := evs.dropWhile fun e => match e with | .poll .. => false | _ => true
@@ -510,13 +605,13 @@ def destroyMark (s : SSt) : SSt :=
                     internalSigs := s.internalSigs.filter (·.1 ≠ s.cur),
                     alive := s.alive.filter (· ≠ s.cur),
                     observer := if s.observer = some s.cur then none else s.observer,
-                    owed := s.owed.filter (·.1 ≠ s.cur) }
+                    owed := s.owed.filter (·.1 ≠ s.cur), owedK := [], loose := [] }
   { s with raised := s.raised.filter (held s) }
 
 /-- Destruction: every remaining watch of the instance that asked for it is notified exactly once; nobody else is. -/
 def checkDestroy (s : SSt) (evs : List PEv) (cut : Bool) : Except String SSt :=
   -- a pending signal whose last watchers go away with the instance reaches the process with its default action
-  if (s.raised.filter fun sg => !held (destroyMark s) sg).any sigTerminates then .ok { destroyMark s with misuse := true } else
+  if !s.fb && (s.raised.filter fun sg => !held (destroyMark s) sg).any sigTerminates then .ok { destroyMark s with misuse := true } else
   if cut then .ok s else
   if !s.c17 then .ok (destroyMark s) else
   let cbs := evs.filterMap fun e => match e with | .cb k f _ => some (k, f) | _ => none
@@ -559,8 +654,9 @@ def step (s : SSt) (wop : WOp) (impl : List String) (why : String) (owner : Nat 
   match wop with
   | .op (.new p) => ({ init with started := true, prop := p }, "")
   | .op .bad => (s, "")
-  | .use i => (if i < NINST then { s with cur := i } else s, "")
+  | .use i => (if i < NINST && !(s.fb && i ≠ 0) then { s with cur := i } else s, "")
   | .inst i =>
+    if s.fb && i ≠ 0 then (s, "") else
     (match impl with
      | "CRASH" :: rest => ({ instS s i with crashed := true }, if s.misuse then "" else crashMsg (" ".intercalate rest))
      | _ => (instS s i, ""))
